@@ -3,7 +3,7 @@
 # Applies one textual edit to a scratch copy of /repo, checks it builds and passes tests, runs the checker.
 set -u
 . /verif/env.sh
-props=$1; file=$2; from=$3; to=$4
+props=$1; file=$2; from=${3-$FROM}; to=${4-$TO}
 d=$(mktemp -d /tmp/mut.XXXXXX)
 trap 'rm -rf "$d"' EXIT
 rsync -a --exclude .git /repo/ "$d/"
